@@ -61,11 +61,11 @@ static const char *kMagic[] = {"P6", "P5", "Pf", "PF", "PF", "PF4"};
 static const char *kThird[] = {"255", "255", "-1.0", "-1.0", "-1.0", "-1.0"};
 static const int kOutComp[] = {3, 1, 1, 3, 3, 4};
 
-static void imageCase(long k, int fmt, int W, int H, uint64_t seed)
+static void imageCase(long k, int fmt, int W, int H, uint64_t seed, int writer = -1)
 {
   vh::Rng r(seed, 20000 + (uint64_t)k);
-  std::string ctx  = "#" + std::to_string(k) + " " + kFmt[fmt] + " " + std::to_string(W) + "x" + std::to_string(H);
-  std::string path = vh::st().outDir + "/img." + std::to_string((long long)getpid()) + ".bin";
+  std::string ctx  = "#" + std::to_string(k) + " " + kFmt[fmt] + " " + std::to_string(W) + "x" + std::to_string(H) + (writer >= 0 ? " (one of several writers at work at the same time, each with its own image and file)" : "");
+  std::string path = vh::st().outDir + "/img." + std::to_string((long long)getpid()) + (writer >= 0 ? "." + std::to_string(writer) : std::string()) + ".bin";
   size_t npix      = (size_t)W * (size_t)H;
   std::string expect;  // expected payload bytes
   // exact-size heap input buffers: any read outside width x height pixels is an ASan report
@@ -351,7 +351,7 @@ int main(int argc, char **argv)
   const bool tsan     = variant.find("tsan") != std::string::npos;
   vh::rule(
       "images: every width x height in 1..17 (thorough 1..33) plus large sizes (every power of two 64..65536 +-1 as width and as height, random widths up to 70000) x 6 writer variants with random pixels in exact-size "
-      "buffers, decoded by an independent reader; traces: scenarios (threads 0..8, events per thread in {0,1,8191,8192,8193,20000,random}, "
+      "buffers, decoded by an independent reader, also with four writers of one format at work at the same time; traces: scenarios (threads 0..8, events per thread in {0,1,8191,8192,8193,20000,random}, "
       "nesting depth <= 6, with/without process name and main-thread events, threads alive together until the log is saved or run one after "
       "the other (exited, ids reused) before it is saved; a third of the scenarios record more and save a second time), each in a fresh process, checked offline by "
       "oracle/trace_check.py; distinct = hash of (format,width,height) / (threads,length,flags); non-trivial = more than one pixel / at least "
@@ -404,6 +404,28 @@ int main(int argc, char **argv)
       nImg, [&](long k) { imageCase(k, fmts[k], Ws[k], Hs[k], vh::seed()); }, 20000, 400,
       [&](long k) { return std::string("C20-image #") + std::to_string(k) + " " + kFmt[fmts[k]] + " " + std::to_string(Ws[k]) + "x" + std::to_string(Hs[k]); });
 
+  // ---- several writers at work at the same time, each with its own pixels and its own file (the writers share nothing
+  //      by contract: every call must still produce exactly its own image); under TSan any shared scratch state shows
+  //      as a race, under ASan / plain as wrong pixels
+  {
+    long rounds = vh::tier(tsan ? 6 : 24, tsan ? 30 : 240);
+    vh::forkedCases(
+        rounds,
+        [&](long k) {
+          int fmt = (int)(k % NFMT);
+          std::vector<std::thread> th;
+          for (int t = 0; t < 4; ++t)
+            th.emplace_back([&, t]() {
+              vh::Rng rr(vh::seed(), 777000 + (uint64_t)k * 16 + (uint64_t)t);
+              for (int it = 0; it < (tsan ? 20 : 60); ++it)
+                imageCase(900000 + k * 1000 + t * 100 + it, fmt, (int)rr.range(1, 300), (int)rr.range(1, 12), vh::seed(), t);
+            });
+          for (size_t i = 0; i < th.size(); ++i)
+            th[i].join();
+          vh::count("concurrent_writer_rounds");
+        },
+        60000, 4, [&](long k) { return std::string("C20-concurrent-writers #") + std::to_string(k) + " " + kFmt[k % NFMT]; });
+  }
   // ---- traces: fresh process per scenario (the recorder is process-global and cumulative)
   std::vector<TraceSpec> specs;
   {
